@@ -102,6 +102,13 @@ class LazyLogging(SimpleCodemod, NameAndAncestorResolutionMixin):
 
         match binop.operator:
             case cst.Modulo():
+                if (
+                    not isinstance(binop.right, cst.Tuple)
+                    and isinstance(binop.left, cst.SimpleString)
+                    and binop.left.raw_value.replace("%%", "").count("%") != 1
+                ):
+                    # `"%s %s" % values`: the right operand is itself the tuple of arguments
+                    return updated_node
                 new_args = self.make_args_for_modulo(binop)
             case cst.Add():
                 if (new_args := self.make_args_for_plus(binop)) is None:
